@@ -407,7 +407,8 @@ func c49Pool(cv *c49Curve) ([]c49PoolEntry, error) {
 	}
 	n := cv.c.Params().N
 	var pool []c49PoolEntry
-	for i := 0; len(pool) < cv.poolN && i < 4*cv.poolN; i++ {
+	zeros := 0
+	for i := 0; (len(pool) < cv.poolN || zeros < 3) && i < 24*cv.poolN; i++ {
 		kb := c49Scalar(cv, fmt.Sprintf("c49pool|%d|%s|%d", ev.Seed(), cv.name, i))
 		ek, err := cv.e.NewPrivateKey(kb)
 		if err != nil {
@@ -425,8 +426,11 @@ func c49Pool(cv *c49Curve) ([]c49PoolEntry, error) {
 			continue
 		}
 		pool = append(pool, c49PoolEntry{k: k, kinv: kinv, r: r, rZero: r.BitLen() <= 8*(cv.size-1)})
+		if pool[len(pool)-1].rZero {
+			zeros++
+		}
 	}
-	if len(pool) < cv.poolN {
+	if len(pool) < cv.poolN || zeros < 3 {
 		return nil, fmt.Errorf("nonce pool for %s incomplete", cv.name)
 	}
 	c49Pools[cv.name] = pool
